@@ -20,14 +20,19 @@ public:
 
 // pooled raw-mmap stacks (fresh page faults and munmap are very expensive on this VM; see sv_rt.cpp)
 static std::vector<std::pair<void*, size_t>> stack_pool;
+static bool poison_freed = false;
 static void* fast_alloc(void*, size_t size) {
     for (size_t i = 0; i < stack_pool.size(); i++)
-        if (stack_pool[i].second == size) { void* p = stack_pool[i].first; stack_pool[i] = stack_pool.back(); stack_pool.pop_back(); return p; }
+        if (stack_pool[i].second == size) { void* p = stack_pool[i].first; stack_pool[i] = stack_pool.back(); stack_pool.pop_back(); if (poison_freed) mv_unpoison(p, size); return p; }
     void* p = mmap(nullptr, size, PROT_READ | PROT_WRITE, MAP_PRIVATE | MAP_ANONYMOUS | MAP_NORESERVE, -1, 0);
     return p == MAP_FAILED ? nullptr : p;
 }
-static void fast_dealloc(void*, void* p, size_t size) { stack_pool.push_back({p, size}); }
-void use_fast_stacks() { photon::set_photon_thread_stack_allocator({&fast_alloc, nullptr}, {&fast_dealloc, nullptr}); }
+static void fast_dealloc(void*, void* p, size_t size) { if (poison_freed) mv_poison(p, size); stack_pool.push_back({p, size}); }
+void use_fast_stacks(bool poison) {
+    // a new execution starts: nothing is poisoned any more (mv_init cleared the map)
+    poison_freed = poison;
+    photon::set_photon_thread_stack_allocator({&fast_alloc, nullptr}, {&fast_dealloc, nullptr});
+}
 
 void vcpu_begin(uint64_t flags) {
     photon::vcpu_init(flags);
